@@ -357,6 +357,7 @@ int main(int argc, char **argv)
   setenv("SSL_CERT_FILE", (CERTS + "/ca_b.pem").c_str(), 1);
   setenv("SSL_CERT_DIR", "/nonexistent", 1);
   // warm up OpenSSL (provider loading, error strings) before any execution child is forked
+  tp::deterministicRand();
   SSL_CTX_free(SSL_CTX_new(TLS_client_method()));
   SSL_CTX_free(SSL_CTX_new(TLS_server_method()));
   std::vector<McScenario> v;
